@@ -214,6 +214,8 @@ PlanLogged(kind, subj, p) ==
   /\ ev' = [a |-> "Plan", kind |-> kind, subj |-> subj, plan |-> p,
             res |-> [moves |-> Len(p), dv |-> 0]]
 
+\* (Stand-alone form of a planner call; Next inlines it next to ApplyPlan so that
+\* ValidPlans is enumerated once per request.)
 Plan(kind, subj) ==
   /\ H <= PlanH
   /\ ValidRequest(kind, subj, assign)
@@ -221,7 +223,9 @@ Plan(kind, subj) ==
 
 \* Carrying a plan out.  mode "reassign": Reassign per move; mode "migrate":
 \* StartMigration, AdvanceMigration, FinalizeMigration per move (only when none
-\* of the moved hash slots has a migration under way).  Same abstract effect.
+\* of the moved hash slots has a migration under way).  Same abstract effect; the
+\* abstract version counts one step per move (the code takes 1 resp. 4 - only the
+\* sign of a version change is observable).
 Modes == {"reassign", "migrate"}
 ApplyPlan(kind, subj, mode, p) ==
   /\ ValidRequest(kind, subj, assign)
